@@ -21,6 +21,7 @@ import (
 	"io"
 	"net"
 	"os"
+	"path/filepath"
 	"sort"
 	"strings"
 	"sync"
@@ -46,6 +47,8 @@ import (
 	"github.com/ozontech/seq-db/proxy/stores"
 	"github.com/ozontech/seq-db/proxyapi"
 	"github.com/ozontech/seq-db/seq"
+
+	"verifharness/env"
 )
 
 // ---------------------------------------------------------------- case format
@@ -153,7 +156,15 @@ type Case struct {
 	FBK     map[string]string `json:"fbk"`
 	Fetch   []FetchEntry      `json:"fetch"`
 	Allowed []Alt             `json:"allowed"`
+	Store   struct {
+		Mode   string `json:"mode"` // "fake" | "hot" | "cold": the first hot host is a real store
+		Mature bool   `json:"mature"`
+		Oct    int64  `json:"oct"`
+		From   int64  `json:"from"`
+	} `json:"store"`
 }
+
+func (c *Case) realStore() bool { return c.Store.Mode == "hot" || c.Store.Mode == "cold" }
 
 // ---------------------------------------------------------------- scripted fakes
 
@@ -162,7 +173,8 @@ const decoyHost = "d11"
 // run is the per-execution state shared by the fakes of one case on one path
 type run struct {
 	c        *Case
-	query    string // the query text identifying this execution (api path: stale calls of an earlier case are refused)
+	query    string          // the query text identifying this execution (api path: stale calls of an earlier case are refused)
+	slow     map[string]bool // hosts that answer a search late (steers the race between shard answers)
 	mu       sync.Mutex
 	problems []string        // things the fakes saw that the scenario does not foresee
 	fetched  map[ID][]string // id -> hosts it was requested from
@@ -188,6 +200,9 @@ func (r *run) doSearch(host string, in *pb.SearchRequest) (*pb.SearchResponse, e
 	r.searched[host]++
 	n := r.searched[host]
 	r.mu.Unlock()
+	if r.slow[host] {
+		time.Sleep(400 * time.Microsecond)
+	}
 	if host == decoyHost {
 		r.problem("HotStores asked although HotReadStores is configured")
 		return &pb.SearchResponse{}, nil
@@ -380,8 +395,21 @@ func order(c *Case) seq.DocsOrder {
 }
 
 // runIngestor: the real search.Ingestor over in-process fakes
-func runIngestor(c *Case) (out Outcome) {
+// variant 1 / 2 delays the answers of the odd / even shards of both tiers.
+func runIngestor(c *Case, variant int) (out Outcome) {
 	r := newRun(c)
+	if variant > 0 {
+		r.slow = map[string]bool{}
+		for _, t := range [][][]string{c.Hot, c.Cold} {
+			for i, sh := range t {
+				if i%2 == variant-1 {
+					for _, h := range sh {
+						r.slow[h] = true
+					}
+				}
+			}
+		}
+	}
 	clients := map[string]pb.StoreApiClient{}
 	for h := range c.SB {
 		clients[h] = &fakeClient{host: h, r: r}
@@ -389,6 +417,14 @@ func runIngestor(c *Case) (out Outcome) {
 	if c.HotRead {
 		clients[decoyHost] = &fakeClient{host: decoyHost, r: r}
 	}
+	id := func(x uint64) uint64 { return x }
+	return runSearch(c, r, clients, 1, 1000, id, func(d string) string { return d })
+}
+
+// runSearch calls the real Ingestor.Search, reads the document iterator to its end and normalises what
+// came back.  absMID / absDoc translate the real store's timestamps and bodies (family "store").
+func runSearch(c *Case, r *run, clients map[string]pb.StoreApiClient, from, to uint64,
+	absMID func(uint64) uint64, absDoc func(string) string) (out Outcome) {
 	ing := search.NewIngestor(searchConfig(c, func(h string) string { return h }), clients)
 	defer func() {
 		if p := recover(); p != nil {
@@ -397,7 +433,7 @@ func runIngestor(c *Case) (out Outcome) {
 		out.Problems = r.problems
 	}()
 	qpr, docs, _, err := ing.Search(context.Background(), &search.SearchRequest{
-		Q: []byte("service:x"), From: 1, To: 1000, Size: c.Req.Size, Offset: c.Req.Offset,
+		Q: []byte(r.query), From: seq.MID(from), To: seq.MID(to), Size: c.Req.Size, Offset: c.Req.Offset,
 		ShouldFetch: true, Order: order(c),
 	}, nil)
 	if qpr == nil {
@@ -432,7 +468,7 @@ func runIngestor(c *Case) (out Outcome) {
 		return o
 	}
 	for _, id := range qpr.IDs {
-		o.IDs = append(o.IDs, IDH{MID: uint64(id.ID.MID), RID: uint64(id.ID.RID)})
+		o.IDs = append(o.IDs, IDH{MID: absMID(uint64(id.ID.MID)), RID: uint64(id.ID.RID)})
 	}
 	// read the iterator to its end (at most two calls more than there are IDs)
 	for i := 0; i < len(qpr.IDs)+2; i++ {
@@ -443,7 +479,7 @@ func runIngestor(c *Case) (out Outcome) {
 			}
 			break
 		}
-		o.Docs = append(o.Docs, string(d.Data))
+		o.Docs = append(o.Docs, absDoc(string(d.Data)))
 		if i < len(qpr.IDs) && !d.ID.Equal(qpr.IDs[i].ID) {
 			r.problem("document %d carries id %d.%d, returned id is %d.%d", i, d.ID.MID, d.ID.RID, qpr.IDs[i].ID.MID, qpr.IDs[i].ID.RID)
 		}
@@ -452,6 +488,140 @@ func runIngestor(c *Case) (out Outcome) {
 		o.IDs[i].Host = r.hostOf(ID{o.IDs[i].MID, o.IDs[i].RID})
 	}
 	return o
+}
+
+// ---------------------------------------------------------------- family "store": a real store as the hot shard
+
+const storeOCT = 5 // abstract creation time of the oldest fraction (ProxyRead!StoreOCT)
+
+type realStore struct {
+	env *env.Env
+	oct uint64 // FracManager.OldestCT as the maintenance loop computed it (ms)
+}
+
+func (s *realStore) real(t int64) uint64 { return uint64(int64(s.oct) + (t-storeOCT)*1000) }
+func (s *realStore) abs(m uint64) uint64 {
+	if m < 1_000_000_000 {
+		return m // an ID of a scripted (cold) host
+	}
+	return uint64((int64(m)-int64(s.oct))/1000 + storeOCT)
+}
+
+var realStores = map[string]*realStore{}
+
+// openRealStore builds a store in the given mode holding documents 8.1, 9.1, 10.1 (abstract times) in a
+// sealed fraction, restarts it (maturity is decided at load time by the `.immature` marker that retention
+// removes when it first deletes a fraction) and waits for the maintenance loop to publish OldestCT.
+func openRealStore(mode string, mature bool) (*realStore, error) {
+	key := fmt.Sprintf("%s/%v", mode, mature)
+	if s, ok := realStores[key]; ok {
+		return s, nil
+	}
+	dir, err := os.MkdirTemp("", "verif-c16-store-")
+	if err != nil {
+		return nil, err
+	}
+	e, err := env.New(env.Opts{Dir: dir, StoreMode: mode, SkipFsync: true})
+	if err != nil {
+		return nil, err
+	}
+	ct := e.FM().Active().Info().CreationTime
+	var docs []env.Doc
+	for m := int64(8); m <= 10; m++ {
+		docs = append(docs, env.Doc{MID: uint64(int64(ct) + (m-storeOCT)*1000), RID: 1, Tok: map[string][]string{"k": {"x"}},
+			Body: fmt.Sprintf(`{"b":"%d.1@h11"}`, m)})
+	}
+	if err := e.Bulk(docs); err != nil {
+		return nil, err
+	}
+	e.Seal()
+	e.Store.WaitIdle()
+	e.Store.FracManager.Stop()
+	if mature {
+		if err := os.Remove(filepath.Join(dir, ".immature")); err != nil {
+			return nil, fmt.Errorf("no immaturity marker to remove: %w", err)
+		}
+	}
+	e2, err := env.New(env.Opts{Dir: dir, StoreMode: mode, SkipFsync: true})
+	if err != nil {
+		return nil, err
+	}
+	deadline := time.Now().Add(10 * time.Second)
+	for e2.FM().OldestCT.Load() == 0 && time.Now().Before(deadline) {
+		time.Sleep(5 * time.Millisecond)
+	}
+	s := &realStore{env: e2, oct: e2.FM().OldestCT.Load()}
+	if s.oct != ct {
+		return nil, fmt.Errorf("OldestCT=%d, creation time of the first fraction was %d", s.oct, ct)
+	}
+	if e2.FM().Mature() != mature {
+		return nil, fmt.Errorf("store maturity is %v, wanted %v", e2.FM().Mature(), mature)
+	}
+	realStores[key] = s
+	return s, nil
+}
+
+func closeRealStores() {
+	for _, s := range realStores {
+		dir := s.env.O.Dir
+		s.env.Close()
+		os.RemoveAll(dir)
+	}
+}
+
+// realClient passes everything to the store's own in-memory client and only keeps the call log
+type realClient struct {
+	pb.StoreApiClient
+	host string
+	r    *run
+	s    *realStore
+}
+
+func (f *realClient) Search(ctx context.Context, in *pb.SearchRequest, o ...grpc.CallOption) (*pb.SearchResponse, error) {
+	f.r.mu.Lock()
+	f.r.searched[f.host]++
+	f.r.mu.Unlock()
+	return f.StoreApiClient.Search(ctx, in, o...)
+}
+
+func (f *realClient) Fetch(ctx context.Context, in *pb.FetchRequest, o ...grpc.CallOption) (pb.StoreApi_FetchClient, error) {
+	f.r.mu.Lock()
+	for _, sid := range in.Ids {
+		if id, err := seq.FromString(sid); err == nil {
+			k := ID{f.s.abs(uint64(id.MID)), uint64(id.RID)}
+			f.r.fetched[k] = append(f.r.fetched[k], f.host)
+		}
+	}
+	f.r.mu.Unlock()
+	return f.StoreApiClient.Fetch(ctx, in, o...)
+}
+
+func runRealStore(c *Case) (Outcome, error) {
+	s, err := openRealStore(c.Store.Mode, c.Store.Mature)
+	if err != nil {
+		return Outcome{}, err
+	}
+	if c.Store.Oct != storeOCT {
+		return Outcome{}, fmt.Errorf("case wants OldestCT %d, the driver can only stand for %d", c.Store.Oct, storeOCT)
+	}
+	r := newRun(c)
+	r.query = "k:x"
+	real := c.Hot[0][0]
+	clients := map[string]pb.StoreApiClient{}
+	for h := range c.SB {
+		if h == real {
+			clients[h] = &realClient{StoreApiClient: s.env.Client, host: h, r: r, s: s}
+		} else {
+			clients[h] = &fakeClient{host: h, r: r}
+		}
+	}
+	absDoc := func(d string) string {
+		if strings.HasPrefix(d, `{"b":"`) && strings.HasSuffix(d, `"}`) {
+			return d[6 : len(d)-2]
+		}
+		return d
+	}
+	return runSearch(c, r, clients, s.real(c.Store.From), s.real(1000), s.abs, absDoc), nil
 }
 
 // ---------------------------------------------------------------- membership in Allowed
@@ -479,8 +649,14 @@ func idsEqual(a []IDH, b []IDH, withHost bool) bool {
 
 // judge returns "" if the outcome is allowed, else a short class of the disagreement
 func judge(c *Case, o Outcome, api bool) string {
+	cls, _ := judgeAlt(c, o, api)
+	return cls
+}
+
+// judgeAlt also tells which member of Allowed the outcome is
+func judgeAlt(c *Case, o Outcome, api bool) (string, int) {
 	if len(o.Problems) > 0 {
-		return "fake-protocol"
+		return "fake-protocol", -1
 	}
 	kindSeen, idsSeen := false, false
 	docClass := ""
@@ -491,14 +667,14 @@ func judge(c *Case, o Outcome, api bool) string {
 				continue
 			}
 			if a.API.Grpc != "OK" || a.API.Code == "TMF" {
-				return ""
+				return "", i
 			}
 		} else {
 			if a.Kind != o.Kind || a.Cls != o.Cls {
 				continue
 			}
 			if a.Kind == "error" {
-				return ""
+				return "", i
 			}
 		}
 		kindSeen = true
@@ -526,20 +702,20 @@ func judge(c *Case, o Outcome, api bool) string {
 			}
 		}
 		if cls == "" {
-			return ""
+			return "", i
 		}
 		docClass = cls
 	}
 	if !kindSeen {
 		if o.Cls == "panic" {
-			return "panic"
+			return "panic", -1
 		}
-		return "outcome-kind"
+		return "outcome-kind", -1
 	}
 	if !idsSeen {
-		return "ids"
+		return "ids", -1
 	}
-	return docClass
+	return docClass, -1
 }
 
 func faultKinds(c *Case) string {
@@ -626,7 +802,9 @@ type apiEnv struct {
 	proxies map[string]seqproxyapi.SeqProxyApiClient
 }
 
-func newAPIEnv() *apiEnv { return &apiEnv{addr: map[string]string{}, proxies: map[string]seqproxyapi.SeqProxyApiClient{}} }
+func newAPIEnv() *apiEnv {
+	return &apiEnv{addr: map[string]string{}, proxies: map[string]seqproxyapi.SeqProxyApiClient{}}
+}
 
 func (e *apiEnv) hostAddr(h string) (string, error) {
 	if a, ok := e.addr[h]; ok {
@@ -801,6 +979,7 @@ func main() {
 	workers := flag.Int("workers", 8, "")
 	paths := flag.String("paths", "ingestor", "ingestor,api")
 	apiEvery := flag.Int("api-every", 1, "run the api path on every k-th case")
+	statsPath := flag.String("stats", "", "append one JSON line of run statistics to this file")
 	flag.Parse()
 	logger.SetLevel(zapcore.FatalLevel)
 	doIng := strings.Contains(*paths, "ingestor")
@@ -824,13 +1003,32 @@ func main() {
 		cases[i] = c
 	}
 	lines = nil
-	var evals, nontriv int64
+	var evals, nontriv, altsTotal, altsSeen int64
 	kinds := map[string]int{}
 	one := func(n int, c *Case) {
-		o := runIngestor(c)
-		atomic.AddInt64(&evals, 1)
-		if cls := judge(c, o, false); cls != "" {
-			report(&mu, n, "ingestor", c, o, cls)
+		if c.realStore() {
+			return // replayed serially below
+		}
+		// scenarios with more than one allowed outcome are races between shard answers: replay them three
+		// times, once undisturbed and once with either half of the shards answering late
+		variants := 1
+		if len(c.Allowed) > 1 {
+			variants = 3
+			atomic.AddInt64(&altsTotal, int64(len(c.Allowed)))
+		}
+		seen := map[int]bool{}
+		for v := 0; v < variants; v++ {
+			o := runIngestor(c, v)
+			atomic.AddInt64(&evals, 1)
+			cls, alt := judgeAlt(c, o, false)
+			if cls != "" {
+				report(&mu, n, "ingestor", c, o, cls)
+				break
+			}
+			seen[alt] = true
+		}
+		if variants > 1 {
+			atomic.AddInt64(&altsSeen, int64(len(seen)))
 		}
 	}
 	for _, c := range cases {
@@ -871,6 +1069,31 @@ func main() {
 			wg.Wait()
 		}
 	}
+	storeRuns := 0
+	if doIng {
+		for n, c := range cases {
+			if !c.realStore() {
+				continue
+			}
+			if *progress {
+				emit(&mu, map[string]any{"begin": n, "form": "store"})
+			}
+			o, err := runRealStore(c)
+			if err != nil {
+				emit(&mu, map[string]any{"infra": "real store: " + err.Error()})
+				os.Exit(3)
+			}
+			storeRuns++
+			evals++
+			if cls := judge(c, o, false); cls != "" {
+				report(&mu, n, "store", c, o, cls)
+			}
+			if *progress {
+				emit(&mu, map[string]any{"end": n})
+			}
+		}
+		closeRealStores()
+	}
 	apiRuns := 0
 	if doAPI {
 		env := newAPIEnv()
@@ -881,7 +1104,7 @@ func main() {
 			if *progress {
 				emit(&mu, map[string]any{"begin": n, "form": "api"})
 			}
-			if c.FBK != nil && hasOpenErr(c) {
+			if hasOpenErr(c) || c.realStore() {
 				continue // a refused Fetch is not observable as an open error over a real gRPC stream
 			}
 			o, err := env.runAPI(c, n, apiRuns%2 == 1)
@@ -899,6 +1122,13 @@ func main() {
 			}
 		}
 	}
+	if *statsPath != "" {
+		if fh, err := os.OpenFile(*statsPath, os.O_APPEND|os.O_CREATE|os.O_WRONLY, 0o644); err == nil {
+			b, _ := json.Marshal(map[string]any{"api": apiRuns, "store": storeRuns, "racing_alts": altsTotal, "racing_alts_seen": altsSeen})
+			fh.Write(append(b, '\n'))
+			fh.Close()
+		}
+	}
 	emit(&mu, map[string]any{"summary": true, "cases": len(cases), "evals": evals, "nontrivial": nontriv, "corpora": 0,
-		"api": apiRuns, "kinds": kinds})
+		"api": apiRuns, "store": storeRuns, "kinds": kinds, "racing_alts": altsTotal, "racing_alts_seen": altsSeen})
 }
